@@ -4,7 +4,7 @@
    fixes/C11-*.diff applied; its routes are re-proved equal to the classification regenerated from the real stack in
    Proofs/SideC11.v.  Worlds (mappings, codes, domains, online clients), connection classes, bodies and packet identity
    fields are arbitrary. *)
-From TX Require Import Model.CmdContext Proofs.CmdContext Model.Commands Proofs.Commands Proofs.SideC11 Gen.C11.
+From TX Require Import Model.CmdContext Proofs.CmdContext Model.Pending Proofs.Pending Model.Commands Proofs.Commands Proofs.SideC11 Gen.C11.
 From Coq Require Import NArith List.
 Import ListNotations.
 Open Scope N_scope.
@@ -187,6 +187,52 @@ Theorem C11_pooled_context_refuted :
   /\ observations (ctx_run false ths_demo sched_demo) = [[(1, 1, 0); (1, 1, 0)]; []].
 Proof. exact pooled_context_refuted. Qed.
 Print Assumptions C11_pooled_context_refuted.
+
+(* ---- pending-request tables keyed by a client-chosen id (DNS resolve / query answers) ---------------------------
+   Events of any number of requests interleave freely (register / response / unregister; ids may collide across
+   connections).  SAFETY: whatever payload a request receives was sent on the connection THAT request was forwarded to. *)
+Theorem C11_answers_only_from_own_responder :
+  forall (evs : list pev) (q t : N), In (q, t) (deliveries false evs) ->
+  exists id s, In (PReg id q s) evs /\ In (PResp id s t) evs.
+Proof. exact answers_only_from_own_responder. Qed.
+Print Assumptions C11_answers_only_from_own_responder.
+
+(* the request that owns the entry receives the genuine answer; an answer from any other connection is dropped *)
+Theorem C11_genuine_answer_delivered_foreign_dropped :
+  (forall evs id q s t, deliveries false (evs ++ [PReg id q s; PResp id s t]) = deliveries false evs ++ [(q, t)]) /\
+  (forall evs id q s x t, x <> s -> deliveries false (evs ++ [PReg id q s; PResp id x t]) = deliveries false evs).
+Proof. exact (conj genuine_answer_delivered foreign_answer_dropped). Qed.
+Print Assumptions C11_genuine_answer_delivered_foreign_dropped.
+
+(* re-using a pending entry for a colliding id (a seeded breaking change) is refuted: the victim (request 1, forwarded to
+   connection 4) receives payload 67, which was sent on the accomplice's connection 2 *)
+Theorem C11_shared_pending_entry_refuted :
+  got true evs_collide 1 = [67] /\ got false evs_collide 1 = [9]
+  /\ ~ (exists id s, In (PReg id 1 s) evs_collide /\ In (PResp id s 67) evs_collide).
+Proof. exact shared_entry_refuted. Qed.
+Print Assumptions C11_shared_pending_entry_refuted.
+
+(* ---- one storage call fails while a command is handled ---------------------------------------------------------
+   For EVERY position p of the failing call: the handler fails closed — a command of nobody is inert, objects change / are
+   disclosed only for the connection's identity, mappings only for parties, packets reach only its own targets. *)
+Theorem C11_fail_closed_every_fault_position :
+  forall w k cl c (p : nat),
+  let a := conn_identity w k in let r := exec_faulty false (current_table ++ [aux_row_current]) w k cl c p in
+  (wf_world w -> a = 0 -> inert w r) /\
+  objects_ok a w r /\ reach_ok a w r /\
+  (forall m, In m (w_maps w) -> ~ In m (w_maps (res_world r)) -> partyP a m) /\
+  (forall m, In m (w_maps (res_world r)) -> ~ In m (w_maps w) -> partyP a m) /\
+  (forall i, In i (res_dm r) -> exists m, In m (w_maps (res_world r)) /\ m_id m = i /\ partyP a m).
+Proof. exact fail_closed. Qed.
+Print Assumptions C11_fail_closed_every_fault_position.
+
+(* MappingDelete that falls through to delete-by-id when its lookup fails (a seeded breaking change) is refuted *)
+Theorem C11_fallthrough_delete_refuted :
+  conn_identity w_demo (KConn 3) = 3
+  /\ w_maps (res_world (exec_faulty true current_table w_demo (KConn 3) 0 (c_demo 76 (Some 0) None) 0)) = tl (w_maps w_demo)
+  /\ exec_faulty false current_table w_demo (KConn 3) 0 (c_demo 76 (Some 0) None) 0 = mk false w_demo.
+Proof. exact fallthrough_delete_refuted. Qed.
+Print Assumptions C11_fallthrough_delete_refuted.
 
 (* the three properties hold for ANY dispatch table whose rows carry the columns their effect class requires
    (row_sound: identity from the connection, auth gate, party relation) — the table is data, the check is boolean *)
